@@ -2664,6 +2664,7 @@ setattr_delegate(
         }
 
         if (++i >= 100) {
+            Py_DECREF(daname);
             return delegation_recursion_error(obj, name);
         }
     }
